@@ -105,7 +105,7 @@ class FlagView final {
   }
   template <typename OtherView>
   bool TryToCopyFrom(const OtherView &other) const {
-    return TryToWrite(other.Read());
+    return other.Ok() && TryToWrite(other.Read());
   }
 
   bool Ok() const {
